@@ -167,6 +167,7 @@ Definition n_add (overrides : bool) (parent : setting) (name : option bytes) (tc
   | Some t =>
       let pty := s_ty parent in
       if ty_eqb pty TArray && negb (ty_is_scalar t) then None else
+      if ty_eqb pty TArray && negb (checktype parent t) then None else
       let name := if ty_eqb pty TArray || ty_eqb pty TList then None else name in
       let name_ok := match name with Some n => validate_name n | None => true end in
       if negb name_ok then None else
